@@ -154,10 +154,10 @@ let () =
   let stat = Hashtbl.create 32 in
   let bump k = Hashtbl.replace stat k (1 + (try Hashtbl.find stat k with Not_found -> 0)) in
   let keys = [ "panic_action"; "abort_action"; "double_next"; "write_before_next"; "write_after_next";
-               "status_after_write"; "return_action"; "recovery_mw"; "builtin_mw"; "wildcard_mw";
-               "wildcard_miss"; "invalid_code"; "info_code"; "nobody_code"; "final_as_handlerfunc";
-               "escaped_panic"; "recovered_panic"; "recovered_after_write"; "aborted_chain";
-               "len1"; "len2_3"; "len4_8"; "nontrivial"; "hdr_after_write" ] in
+               "return_action"; "recovery_mw"; "builtin_mw"; "wildcard_mw"; "chain_cut_short";
+               "invalid_code"; "info_code"; "nobody_code"; "final_as_handlerfunc";
+               "escaped_panic"; "recovered_panic"; "recovered_after_send"; "aborted_chain";
+               "len1"; "len2_3"; "len4_8"; "nontrivial"; "status_after_body"; "ignored_status" ] in
   List.iter (fun k -> Hashtbl.replace stat k 0) keys;
   (try
      while true do
@@ -216,17 +216,18 @@ let () =
                  let tr = c.c_tr in
                  (match fo with Panicked _ -> bump "escaped_panic" | _ -> ());
                  if List.exists (function ERecovered (_, _, _) -> true | _ -> false) tr then bump "recovered_panic";
-                 if List.exists (function ERecovered (_, true, _) -> true | _ -> false) tr then bump "recovered_after_write";
+                 if List.exists (function ERecovered (_, true, _) -> true | _ -> false) tr then bump "recovered_after_send";
                  if List.exists (function EAbort _ -> true | _ -> false) tr then bump "aborted_chain";
                  let ne = count_if (function EEnter _ -> true | _ -> false) tr in
-                 if ne < nh then bump "wildcard_miss_or_cut";
+                 if ne < nh then bump "chain_cut_short";
                  if ne >= 2 && List.length tr >= 6 then bump "nontrivial";
-                 (* a status written after a body write, or header ops after the first write *)
-                 let rec sw wrote = function
-                   | [] -> ()
-                   | EObs (_, _, w, _, _) :: t -> sw (wrote || w) t
-                   | _ :: t -> sw wrote t in
-                 sw false tr
+                 (* WriteHeader calls that came after the first write (ignored by the wrapper) *)
+                 (match c.c_w.ops with
+                  | OpW _ :: rest when List.exists (function OpWH _ -> true | _ -> false) rest ->
+                    bump "status_after_body"
+                  | OpWH _ :: rest when List.exists (function OpWH _ -> true | _ -> false) rest ->
+                    bump "ignored_status"
+                  | _ -> ())
                | _ -> ())
             with Failure m ->
               incr mism;
